@@ -132,6 +132,17 @@ def classify(c, rt, key_prefix, text, extra):
     return "ok"
 
 
+def _fnorm(s):
+    """floating literals by value: Printer.tla carries them as the text that was read, the library prints the shortest digits that
+    round-trip (`5e+22`, `5e-324`)"""
+    def f(m):
+        try:
+            return repr(float(m.group(0)))
+        except ValueError:
+            return m.group(0)
+    return re.sub(r"(?<![\w.])(\d+\.\d*(?:[eE][-+]?\d+)?|\d+[eE][-+]?\d+|\.\d+(?:[eE][-+]?\d+)?)", f, s)
+
+
 def run(tier):
     c = vf.Check("C03", tier)
     quick = tier == "quick"
@@ -162,6 +173,8 @@ def run(tier):
             raise vf.MachineryError("scaffold failed in %s: %s" % (jid, json.dumps(r)[:1000]))
     stats = {"ok": 0, "bad": 0, "skipped": 0}
     drift = 0
+    known_ite_asg = 0
+    drift_samples = []
     spec_rt_fail = 0
     for k in range(0, len(items), per):
         for j, rt in enumerate(res["e%d" % (k // per)]["roundtrip"]):
@@ -171,10 +184,14 @@ def run(tier):
             if not e["rt"]:
                 spec_rt_fail += 1
             if rt["status"] != "not-accepted" and rt.get("s1") is not None and k + j < len(univ):
-                want = re.sub(r"\s+", "", lx.render(e["printed"]))
-                got = re.sub(r"\s+", "", rt["s1"])
-                if want != got and "@" not in want:
+                want = _fnorm(re.sub(r"\s+", "", lx.render(e["printed"])))
+                got = _fnorm(re.sub(r"\s+", "", rt["s1"]))
+                if want != got and re.match(r"^\(.*\?.*:.*\)[-+*/%&|^<>]*=", want) and re.search(r"\?.*:\(.*=.*\)$", got):
+                    known_ite_asg += 1        # the input `c ? a : b = e` is read as `c ? a : (b = e)` (C02's known finding), and printed as read
+                elif want != got and "@" not in want:
                     drift += 1
+                    if len(drift_samples) < 40:
+                        drift_samples.append({"spec": want, "libutap": got})
     # boundary literals and operand shapes the operator-centred universe of Lang.tla does not reach: negative literals under minus, string
     # literals, strategy file names with characters that need escaping, until-forms with constant operands, quantifiers in operand position
     bjobs = [{"id": "bx", "entry": "xml_buffer", "text": scaffold, "structure": False,
@@ -200,6 +217,8 @@ def run(tier):
     c.cov["queries"] = qstats
     c.cov["spec_level_roundtrip_failures"] = spec_rt_fail
     c.cov["transcription_mismatches"] = drift
+    c.cov["printed_as_read_inline_if_assignment"] = known_ite_asg
+    c.cov["transcription_mismatch_samples"] = drift_samples
     c.cov["rule"] = "typed universe of Lang.tla (every constructor over every constructor, %d trees) and %d query forms of Queries.tla; a case counts when the library accepts it (parse + type check) in the scaffold; each is printed, re-parsed, compared" % (len(items), len(qitems))
     c.cov["exhaustive"] = True
     for it in items[:2] + qitems[:3] + qitems[len(qitems) // 2:len(qitems) // 2 + 2]:
